@@ -239,9 +239,11 @@ pub struct Item {
     pub proc_opts: Option<String>,
     pub unpriv: bool,
     pub nofile: Option<u64>,
+    /// the caller has no descriptor 0 (a daemon that closed stdin): the library's first open returns 0
+    pub no_stdin: bool,
 }
 
-fn item(scen: Scenario, plan: Plan, max_exec: u64) -> Item { Item { scen, plan, warm: true, mount_api: 0, max_exec, bundle: vec![], others: vec![], proc_opts: None, unpriv: false, nofile: None } }
+fn item(scen: Scenario, plan: Plan, max_exec: u64) -> Item { Item { scen, plan, warm: true, mount_api: 0, max_exec, bundle: vec![], others: vec![], proc_opts: None, unpriv: false, nofile: None, no_stdin: false } }
 
 /// Argument spellings for the input sweep of mutating operations (C03/C05/C11).
 pub fn sweep_paths() -> Vec<&'static str> {
@@ -357,7 +359,7 @@ pub fn items(prop: &str, tier: &str) -> Vec<Item> {
     let bundle = |name: &str, scens: Vec<Scenario>, size: usize, warm: bool, mount_api: u8, out: &mut Vec<Item>| {
         for (i, ch) in scens.chunks(size).enumerate() {
             let s0 = Scenario { name: format!("{}#{}", name, i), backend: ch[0].backend.clone(), op: ch[0].op.clone(), path: String::new() };
-            out.push(Item { scen: s0, plan: Plan::Trace, warm, mount_api, max_exec: 1, bundle: ch.to_vec(), others: vec![], proc_opts: None, unpriv: false, nofile: None });
+            out.push(Item { scen: s0, plan: Plan::Trace, warm, mount_api, max_exec: 1, bundle: ch.to_vec(), others: vec![], proc_opts: None, unpriv: false, nofile: None, no_stdin: false });
         }
     };
     match prop {
@@ -409,6 +411,8 @@ pub fn items(prop: &str, tier: &str) -> Vec<Item> {
             all.extend(sweep_scenarios(false, true).into_iter().step_by(if th { 1 } else { 2 }));
             bundle("table-warm", all.clone(), 40, true, 0, &mut v);
             bundle("table-cold", all.iter().step_by(7).cloned().collect(), 30, false, 0, &mut v);
+            // callers without a descriptor 0
+            { let n0 = v.len(); bundle("table-no-stdin", all.iter().step_by(if th { 2 } else { 5 }).cloned().collect(), 40, true, 0, &mut v); for it in v[n0..].iter_mut() { it.no_stdin = true; } }
             bundle("table-cold-nofsopen", all.iter().step_by(11).cloned().collect(), 30, false, 1, &mut v);
             bundle("table-cold-nomountapi", all.iter().step_by(11).cloned().collect(), 30, false, 2, &mut v);
             // error paths under injected faults and attacker interleavings
@@ -460,7 +464,7 @@ pub fn items(prop: &str, tier: &str) -> Vec<Item> {
                     }
                 }
                 let s0 = scs[0].clone();
-                v.push(Item { scen: s0, plan: Plan::Trace, warm: true, mount_api: 0, max_exec: 1, bundle: scs, others: vec![], proc_opts: opts.map(|s| s.to_string()), unpriv: *unpriv, nofile: Some(256) });
+                v.push(Item { scen: s0, plan: Plan::Trace, warm: true, mount_api: 0, max_exec: 1, bundle: scs, others: vec![], proc_opts: opts.map(|s| s.to_string()), unpriv: *unpriv, nofile: Some(256), no_stdin: false });
             }
             // environment answers of the handle-construction protocol: every single (thorough: every pair of) deviating answer(s)
             let names: Vec<String> = ["fsopen", "fsconfig", "fsmount", "open_tree", "openat", "faccessat2"].iter().map(|s| s.to_string()).collect();
@@ -527,6 +531,7 @@ pub fn n_items(prop: &str, tier: &str) -> usize { items(prop, tier).len() }
 fn spec_for(it: &Item, scen: &Scenario) -> OneShot {
     let mut os = oneshot(&scen.backend, scen.op.clone(), it.warm);
     os.warmup.extend(handle_warmup(&scen.op));
+    if it.no_stdin { os.warmup.push(Op::new("close_stdin")); }
     if it.unpriv { os.setup.uid = 1000; os.setup.gid = 1000; os.setup.drop_caps = true; os.setup.keep_dumpable = true; }
     os.setup.rlimit_nofile = it.nofile;
     if it.mount_api >= 1 { os.setup.deny.push("fsopen".to_string()); }
